@@ -23,7 +23,7 @@ Theorem add_aligned_bytes_appends s x :
   Inv s -> bytes_ok (s_buf s) -> bytes_ok x -> s_off s mod 8 = 0 -> s_off s / 8 + blen x <= blen (s_buf s) ->
   exists s', add_aligned_bytes s x = Some s' /\ appended s s' (8 * blen x) (bit x).
 Proof.
-  intros HI Hok Hx Hal Hcap. unfold add_aligned_bytes. rewrite Hal. cbn [N.eqb negb].
+  intros HI Hok Hx Hal Hcap. unfold add_aligned_bytes. rewrite Hal, (ensure_writable_true s _ _ Hcap). cbn [N.eqb negb].
   rewrite assign_slice_fits by exact Hcap. eexists. split; [reflexivity|]. unfold appended. cbn [s_off s_buf].
   set (a := s_off s / 8) in *.
   split; [lia|]. split; [unfold blen in *; rewrite !app_length, firstn_length, skipn_length; lia|].
@@ -47,7 +47,8 @@ Proof.
   assert (Hlen : blen (le_bytes (N.to_nat nb) v) = nb) by (unfold blen; rewrite le_bytes_length; lia).
   destruct (add_aligned_bytes_appends s (le_bytes (N.to_nat nb) v) HI Hok (le_bytes_ok _ _) Hal ltac:(rewrite Hlen; exact Hcap))
     as (s1 & E1 & (Ho1 & Hl1 & Hok1 & Hb1)).
-  unfold add_aligned_bytes in E1. rewrite Hal in E1. cbn [N.eqb negb] in E1.
+  unfold add_aligned_bytes in E1. rewrite Hal, Hlen, (ensure_writable_true s _ _ Hcap) in E1. cbn [N.eqb negb] in E1.
+  rewrite Hlen, (ensure_writable_true s _ _ Hcap). cbn [negb].
   destruct (assign_slice (s_buf s) (s_off s / 8) (le_bytes (N.to_nat nb) v)) as [b|]; [|discriminate].
   injection E1 as E1. eexists. split; [reflexivity|]. unfold appended. cbn [s_off s_buf]. subst s1. cbn [s_off s_buf] in *.
   split; [reflexivity|]. split; [exact Hl1|]. split; [exact Hok1|].
